@@ -28,6 +28,7 @@ import KikiVerif.Proofs.TableCells
 import KikiVerif.Proofs.Encode
 import KikiVerif.Proofs.FirstSound
 import KikiVerif.Proofs.Canonical
+import KikiVerif.Proofs.LalrConflict
 
 namespace KikiVerif.C17
 open KikiVerif.Table KikiVerif.Machine KikiVerif.LR
@@ -115,6 +116,46 @@ theorem C17_cells (c : Ctx) (m : Machine) (t : Table) (h : machineToTable c m = 
   · intro s b to hb
     exact ⟨cells.gotoJust s b to hb, fun htr => cells.gotoOf _ htr b rfl⟩
 
+/-- **C17, the cells in the textbook's terms, every validated file**: the *kind* of every ACTION cell (shift /
+reduce by rule `r` / accept / error — everything but the destination of a shift, which is a state number and is
+pinned by `C17_cells` + `C17_is_lalr1` up to renumbering) is read off the canonical LR(1) collection alone: the cell
+of state `s` on column `col` has the non-error kind `w` iff some canonical LR(1) state with the cores of `s` holds
+an item that wants `w` on `col` (`Machine.want`: reduce `A → α` exactly on the lookaheads of `[A → α·, a]` in the
+canonical states merged into `s`, accept on end of input for `[S' → S·]`, shift on the terminal right of a dot);
+hence the error action everywhere else. -/
+theorem C17_cells_lalr1 (vf : VFile.File) (enc : Encode.Enc) (m : Machine) (fuel : Nat)
+    (he : Encode.encode vf = some enc) (hm : machineOf enc.ctx fuel = some (some m))
+    (t : Table) (ht : machineToTable enc.ctx m = .ok t) :
+    ∃ fm, firstSets enc.ctx fuel = some (some fm) ∧
+      ∀ s, s < m.states.length → ∀ col, col ≤ enc.ctx.nT → ∀ w, w ≠ Want.err →
+        (kindOf (t.action s col) = w ↔
+          ∃ (I : Item → Prop) (y : Item), CanonState enc.ctx fm I ∧ SameCoresPS I (m.states.getD s []) ∧ I y ∧
+            want enc.ctx y = some (col, w)) := by
+  have ok := Encode.encode_ok he
+  obtain ⟨fm, hfm, mok⟩ := machineOf_ok ok.terms hm
+  have hlen := (firstSets_closed hfm).2.1
+  have cells := machineToTable_cells ht
+  refine ⟨fm, hfm, ?_⟩
+  intro s hs col hcol w hw
+  have hst : m.states[s]? = some (m.states.getD s []) := by
+    rw [List.getD_eq_getElem?_getD, List.getElem?_eq_getElem hs]; rfl
+  constructor
+  · intro hk
+    have hne : t.action s col ≠ .err := by
+      intro e; rw [e] at hk; exact hw hk.symm
+    obtain ⟨st, it, hst', hit, hd⟩ := cells.justified s col hcol hne
+    rw [hst] at hst'; cases hst'
+    obtain ⟨I, hI, hsc, hy⟩ := machine_in_canon ok hlen mok (mok.just s hs it hit)
+    exact ⟨I, it, hI, hsc, hy, by rw [← hk]; exact (demand_want hd).1⟩
+  · rintro ⟨I, y, hI, hsc, hy, hwant⟩
+    obtain ⟨s', hs', hsc', hin⟩ := canon_in_machine ok hlen mok hI
+    have hsame : SameCores (m.states.getD s' []) (m.states.getD s []) := fun p => (hsc' p).symm.trans (hsc p)
+    have e := mok.distinct s' s hs' hs hsame
+    subst e
+    obtain ⟨a, hd, hk⟩ := want_demand mok hs (hin y hy) hwant
+    rw [cells.demand s' _ hst y (hin y hy) col a hd]
+    exact hk
+
 end KikiVerif.C17
 
 #print axioms KikiVerif.C17.C17_items_exact
@@ -122,3 +163,4 @@ end KikiVerif.C17
 #print axioms KikiVerif.C17.C17_is_lalr1
 #print axioms KikiVerif.C17.C17_cells
 #print axioms KikiVerif.C17.C17_empty_table
+#print axioms KikiVerif.C17.C17_cells_lalr1
